@@ -388,6 +388,12 @@ def escapes(rep, lib):
                 r.bad(key, "escape \\%s must decode to byte %02X, found pushes %s" % (chr(v), want[v], pushes), s2.where())
         elif v == 0x75:
             hex_sites = nx
+            after_digits = set()
+            for x in nx:
+                after_digits |= b.reachable(x)
+            # what is appended once the digits are read is judged by escape[u]#value below
+            pushes = [av[1] for bb_, c, av in res.calls if (c.name or "").endswith("Vec::<T, A>::push") and len(av) > 1
+                      and c.bb not in after_digits]
             if pushes and any(p is not None for p in pushes):
                 r.bad(key, "\\u appends a constant byte", s2.where())
         else:
@@ -401,15 +407,29 @@ def escapes(rep, lib):
     s3 = b.call_at[list(hex_sites)[0]]
     t3 = table_for(b, s3, lib, stop={c.bb for c in nexts})
     hv = {}
+    # the digit is what is OR-ed into the accumulator: the definitions of the `|`'s right operand
+    digit_defs = set()
+    hloops = [bl for h_, bl in b.loops().items() if s3.bb in bl]
+    hblocks = min(hloops, key=len) if hloops else set()
+    for bb, idx, place, rv, _ in b.assignments():
+        if bb in hblocks and rv["k"] == "binop" and rv["op"] == "BitOr" and rv["b"].get("k") in ("copy", "move") \
+                and not rv["b"]["place"]["p"]:
+            dl = rv["b"]["place"]["l"]
+            digit_defs |= {(b2, i2) for b2, i2, p2, r2, _ in b.assignments() if p2["l"] == dl and not p2["p"]}
     for v in ALL:
         res = t3[v]
         froms = [av[0] for _, c, av in res.calls if (c.callee or "") == "std::convert::From::from"
                  and c.dest.get("ty") == "u32" and av and av[0] is not None]
+        vals = set()
+        for k in digit_defs:
+            vals |= {x for x in res.assigns.get(k, ()) if x is not None}
         errs = [x for _, x in res.returns if x is not None and x[0] == "adt" and x[1] == 1]
-        if froms and not res.panics:
-            hv[v] = froms[0][1]
-        elif res.panics:
+        if res.panics:
             hv[v] = "panic"
+        elif len(vals) == 1 and list(vals)[0][0] == "i":
+            hv[v] = list(vals)[0][1]
+        elif froms and not vals:
+            hv[v] = froms[0][1]
     wanthex = {}
     for i in range(10):
         wanthex[0x30 + i] = i
